@@ -58,7 +58,7 @@ Definition next_idx (s : strategy) (o : oracle) : selector := fun clk fin idx =>
   if all_fin fin then inl AssertFail
   else if negb (idx <? length fin) then inl AssertFail
   else match s with
-  | Sequential => inr (if nth idx fin false then S idx mod length fin else idx, clk)
+  | Sequential => inr (if nth idx fin true then S idx mod length fin else idx, clk)
   | Interleaved =>
       match probe fin (length fin) (S idx mod length fin) with
       | Some j => inr (j, clk)
